@@ -282,6 +282,7 @@ def instrument(Q, tr):
                 if pol == 'first': return lst[0]
                 if pol == 'last': return lst[-1]
                 if pol == 'random': return lst[Q._tie_rng.randrange(len(lst))]
+                if pol == 'script': return lst[Q._scripted_choice(len(lst))]
             return orig()
         wrap(nd, 'decide_between_simultaneous_individuals', dbs)
 
@@ -320,7 +321,17 @@ class MonSim(ciw.Simulation):
     _tie_rng = None
     _keep_snaps = True
 
-    def attach(self, tr, cap=20000, tie_policy='native', tie_seed=0):
+    def _scripted_choice(self, n):
+        """'script' policy: the k-th tie situation of the run takes the k-th entry of the script (0 beyond its end); the numbers of
+        candidates met are recorded so that a driver can enumerate all resolutions of a small scenario."""
+        k = len(self._tie_trace)
+        c = self._tie_script[k] if k < len(self._tie_script) else 0
+        self._tie_trace.append(n)
+        return min(c, n - 1)
+
+    def attach(self, tr, cap=20000, tie_policy='native', tie_seed=0, tie_script=None):
+        self._tie_script = list(tie_script or [])
+        self._tie_trace = []
         self._tr = tr
         self._nev = 0
         self._cap = cap
@@ -347,6 +358,7 @@ class MonSim(ciw.Simulation):
                 nd = super().find_next_active_node()
             elif pol == 'first': nd = cands[0]
             elif pol == 'last': nd = cands[-1]
+            elif pol == 'script': nd = cands[self._scripted_choice(len(cands))]
             else: nd = cands[self._tie_rng.randrange(len(cands))]
             tr.tie_choices.add((len(cands), cands.index(nd) if nd in cands else -1))
             return nd
